@@ -121,6 +121,9 @@ func mergeStats(dst *Stats, s *Stats) {
 	for k, v := range s.Asserts {
 		dst.Asserts[k] += v
 	}
+	for k, v := range s.Funcs {
+		dst.Funcs[k] += v
+	}
 	for _, w := range s.Inconclusive {
 		found := false
 		for _, x := range dst.Inconclusive {
@@ -140,6 +143,7 @@ func runHarness(L *Loaded, H *Harness, sem chan struct{}, maxWorkers int, debug 
 	res.Stats.Unsupported = map[string]int{}
 	res.Stats.Covers = map[string]int{}
 	res.Stats.Asserts = map[string]int{}
+	res.Stats.Funcs = map[string]int{}
 	pool := &WorkPool{sem: sem, max: maxWorkers}
 	pool.cond = sync.NewCond(&pool.mu)
 	var wg sync.WaitGroup
